@@ -304,7 +304,7 @@ def c_option_take(ex, st, callee, a):
     v = deref(st, a[0]); upd(st, a[0], NONE); return [(None, v)]
 
 
-@contract(r'^std::option::Option::<.*>::(unwrap_or|unwrap_or_else)::?<?')
+@contract(r'^std::option::Option::<.*>::(unwrap_or|unwrap_or_else)(::<|$)', r'^Result::<.*>::(unwrap_or|unwrap_or_else)(::<|$)')
 def c_option_unwrap_or(ex, st, callee, a):
     v = a[0]
     if v[2] in ('Some', 'Ok'): return [(None, v[3][0])]
